@@ -419,11 +419,16 @@ func (k *Kernel) Run(hook func()) string {
 			if !k.slowInit {
 				k.initSlow()
 			}
-			relTotal := 0
+			relTotal, maxW := 0, 0
 			for _, pg := range P {
-				relTotal += k.weightOf(pg)
+				w := k.weightOf(pg)
+				relTotal += w
+				maxW = max(maxW, w)
 			}
-			d := k.tape.DrawSched(relTotal + advW*64)
+			// the starved class lags behind the other goroutines, not behind the clock: when only starved goroutines are
+			// parked, releasing one against letting time pass has the same odds as without the bias (otherwise every
+			// "within N simulated minutes" bound would be broken by the scheduler, not by the system)
+			d := k.tape.DrawSched(relTotal + advW*maxW/max(1, k.ReleaseWeight))
 			if d >= relTotal {
 				q := advanceQuanta[k.tape.DrawSched(len(advanceQuanta))]
 				k.logSched("advance", q.String())
